@@ -484,7 +484,7 @@ impl GeographicDiversityEnforcer {
         *self.region_counts.entry(region).or_insert(0) += 1;
     }
 
-    fn _remove(&mut self, region: GeographicRegion) {
+    fn remove(&mut self, region: GeographicRegion) {
         if let Some(count) = self.region_counts.get_mut(&region) {
             *count = count.saturating_sub(1);
         }
@@ -1423,6 +1423,8 @@ impl DhtCoreEngine {
                         ip,
                         region
                     );
+                    // Give back the IP diversity slots taken in step 2
+                    self.release_slots(&node.address, false).await;
                     return Err(anyhow::anyhow!(
                         "Geographic diversity limits exceeded for region {region:?} (IP: {ip})"
                     ));
@@ -1432,13 +1434,41 @@ impl DhtCoreEngine {
         }
 
         // 4. Add to routing table
+        let address = node.address.clone();
         let mut routing = self.routing_table.write().await;
-        routing.add_node(node)?;
+        if let Err(e) = routing.add_node(node) {
+            drop(routing);
+            // Give back the IP diversity and region slots taken in steps 2 and 3
+            self.release_slots(&address, true).await;
+            return Err(e);
+        }
 
         // 5. Update Metrics
         // (Placeholder: Add metric for new node joining if available)
 
         Ok(())
+    }
+}
+
+impl DhtCoreEngine {
+    /// Give back the IP diversity slots - and, with `region_too`, the region slot -
+    /// that `add_node` takes for a node with this address.
+    async fn release_slots(&self, address: &str, region_too: bool) {
+        let Some(ip) = node_ip(address) else {
+            return;
+        };
+        {
+            let mut enforcer = self.ip_diversity_enforcer.write().await;
+            if let Ok(analysis) = enforcer.analyze_unified(ip) {
+                enforcer.remove_unified(&analysis);
+            }
+        }
+        if region_too {
+            self.geographic_diversity_enforcer
+                .write()
+                .await
+                .remove(GeographicRegion::from_ip(ip));
+        }
     }
 }
 
